@@ -190,6 +190,9 @@ pub fn judge_fault_free(c: &Case, api: Api, ex: &Exec) -> Vec<(String, String)> 
     }
     let text = c.text.as_str();
     let ls = lines(text);
+    if api == Api::Decor {
+        return judge_decor(c, ex);
+    }
     let rows = parse_rows_from_text(&ex.out);
     let labelled: Vec<(usize, usize)> = rows.iter().enumerate().filter_map(|(i, r)| r.label.map(|n| (i, n))).collect();
     if ls.is_empty() {
@@ -239,6 +242,9 @@ pub fn judge_fault_free(c: &Case, api: Api, ex: &Exec) -> Vec<(String, String)> 
     if !v.is_empty() {
         return v; // marker columns are only meaningful once the rows are right
     }
+    if !cells_are_modelled(text) {
+        return v; // zero-width, ambiguous-width or bidirectional characters: no agreed cell model, columns not judged
+    }
     let markers = if api == Api::Custom { markers_from_events(ex, &rows) } else { markers_from_text(&rows) };
     if nonempty {
         if markers.is_empty() {
@@ -277,6 +283,69 @@ pub fn judge_fault_free(c: &Case, api: Api, ex: &Exec) -> Vec<(String, String)> 
                 v.push(("marker-first-wrong".to_string(), format!("marker starts at cell {m0col}, character at the offset occupies [{lo},{hi})")));
             }
         }
+    }
+    v
+}
+
+/// Is every character of `text` one whose display cells the oracle's table models (and unicode-width agrees on)?
+pub fn cells_are_modelled(text: &str) -> bool {
+    text.chars().all(|c| !crate::EXOTIC.contains(&c))
+}
+
+/// Decorating callbacks: the output text is not parsed. What the callbacks were HANDED is judged: the line numbers given to the
+/// number callback (strictly increasing, in range, first/last as the property says) and, per numbered row, the concatenation of
+/// the texts handed to the span callback must be a piece of that line's picture text.
+fn judge_decor(c: &Case, ex: &Exec) -> Vec<(String, String)> {
+    let mut v = Vec::new();
+    let text = c.text.as_str();
+    let ls = lines(text);
+    let mut labels: Vec<(usize, usize)> = Vec::new(); // (event index, label)
+    for (i, e) in ex.events.iter().enumerate() {
+        if e.channel == 2 {
+            let t = e.text.trim();
+            if !t.is_empty() && t.bytes().all(|b| b.is_ascii_digit()) {
+                if let Ok(n) = t.parse() {
+                    labels.push((i, n));
+                }
+            }
+        }
+    }
+    if ls.is_empty() {
+        return v;
+    }
+    if labels.is_empty() {
+        v.push(("no-numbered-line".to_string(), "decorating option: the number callback never received a line number".to_string()));
+        return v;
+    }
+    for w in labels.windows(2) {
+        if w[1].1 <= w[0].1 {
+            v.push(("label-not-increasing".to_string(), format!("{} then {}", w[0].1, w[1].1)));
+        }
+    }
+    for (k, (ei, n)) in labels.iter().enumerate() {
+        if *n < 1 || *n > ls.len() {
+            v.push(("label-out-of-range".to_string(), format!("label {n} of {} lines", ls.len())));
+            continue;
+        }
+        let (s, e) = ls[*n - 1];
+        let want = vis(&text[s..e]);
+        let until = labels.get(k + 1).map(|x| x.0).unwrap_or(ex.events.len());
+        let given: String = ex.events[*ei..until].iter().filter(|e| e.channel == 0).map(|e| e.text.as_str()).collect();
+        if !want.contains(given.as_str()) {
+            v.push(("label-text-mismatch".to_string(), format!("row labelled {n}: span callback received {given:?}, line {n} is {want:?}")));
+        }
+    }
+    let at_line_start = c.a > 0 && c.a < text.len() && text.as_bytes()[c.a - 1] == b'\n';
+    let sig = |got: usize, want: usize| if at_line_start && got + 1 == want { "@line-start" } else { "" };
+    let nonempty = c.b > c.a;
+    let first = line_of_offset(text, c.a);
+    let last = if nonempty { line_of_offset(text, c.b - 1) } else { first };
+    if labels[0].1 != first + 1 {
+        v.push((format!("first-line-wrong{}", sig(labels[0].1, first + 1)), format!("first numbered row is {}, first character is on line {}", labels[0].1, first + 1)));
+    }
+    let got = labels[labels.len() - 1].1;
+    if got != last + 1 {
+        v.push((format!("last-line-wrong{}", if nonempty { "" } else { sig(got, last + 1) }), format!("last numbered row is {got}, last character is on line {}", last + 1)));
     }
     v
 }
